@@ -14,7 +14,7 @@ const STATES: [EngineState; 4] = [
 pub fn run(out: &mut Out, tier: &str, rng: &mut Rng) {
     // (idle, max, timeout ms). The first is the shipped VolvoD7E setting.
     let settings: &[(u16, u16, u64)] = if tier == "thorough" {
-        &[(800, 2100, 2000), (0, 65535, 2000), (1000, 1000, 500), (1, 2, 1), (900, 65535, 60_000)]
+        &[(800, 2100, 2000), (0, 65535, 2000), (1000, 1000, 500), (1, 2, 400), (900, 65535, 60_000)]
     } else {
         &[(800, 2100, 2000), (1000, 1000, 500)]
     };
@@ -25,19 +25,34 @@ pub fn run(out: &mut Out, tier: &str, rng: &mut Rng) {
         let gov = Governor::new(idle, max, Duration::from_millis(tmo));
         for ss in STATES {
             for cs in STATES {
-                for age_kind in 0..3 {
-                    // ages kept far from the deadline: fresh = 0 ms, expired = timeout + 10 s
+                for age_kind in 0..6 {
+                    // fresh = 0 ms (far below every timeout used); expired = timeout + 10 s; and three ages just past the
+                    // deadline (an age can only grow between its construction and the call, so "older" never flakes)
                     let (age_tok, d): (i64, Option<Duration>) = match age_kind {
                         0 => (-1, None),
                         1 => (0, Some(Duration::from_millis(0))),
-                        _ => ((tmo + 10_000) as i64, Some(Duration::from_millis(tmo + 10_000))),
+                        2 => ((tmo + 10_000) as i64, Some(Duration::from_millis(tmo + 10_000))),
+                        3 => ((tmo + 1) as i64, Some(Duration::from_millis(tmo + 1))),
+                        4 => ((tmo + 400) as i64, Some(Duration::from_millis(tmo + 400))),
+                        _ => ((tmo + 999) as i64, Some(Duration::from_millis(tmo + 999))),
                     };
-                    out.count(&format!("sig={:?} cmd={:?} age={}", ss, cs, ["none", "fresh", "expired"][age_kind]));
+                    out.count(&format!("sig={:?} cmd={:?} age={}", ss, cs, ["none", "fresh", "expired", "deadline+1ms", "deadline+400ms", "deadline+999ms"][age_kind]));
                     for rpm in 0..=65535u16 {
+                        if age_kind >= 3 && rpm % 257 != 0 && rpm != idle && rpm != max && rpm != 65535 {
+                            continue;
+                        }
                         let sig_rpm = (rng.next() & 0xFFFF) as u16;
                         let sig = Engine { driver_demand: 0, actual_engine: 0, rpm: sig_rpm, state: ss };
                         let cmd = Engine { driver_demand: 0, actual_engine: 0, rpm, state: cs };
-                        let inst = d.map(|d| Instant::now().checked_sub(d).unwrap_or(base));
+                        // (a machine that has been up for less than the age cannot represent it: such a case is skipped)
+                        let inst = match d {
+                            None => None,
+                            Some(d) => match Instant::now().checked_sub(d) {
+                                Some(i) => Some(i),
+                                None => continue,
+                            },
+                        };
+                        let _ = base;
                         let r = gov.next_state(&sig, &cmd, inst);
                         let nontrivial = matches!(ss, EngineState::Request | EngineState::NoRequest | EngineState::Starting);
                         out.case(
